@@ -535,3 +535,44 @@ type TemplateObj struct {
 }
 
 type BuilderObj struct{ S Term }
+
+func init() {
+	reg("errors.Is", "errors.Is(err, target): false for a nil err; otherwise identity of the two errors or an unknown wrapped match", func(x *Exec, st *State, fr *Frame, c *callCtx) bool {
+		a, _ := x.force(st, c.args[0]).(VIface)
+		b, _ := x.force(st, c.args[1]).(VIface)
+		r := x.sym.Fresh("errors.is", SBool)
+		if a.Nil.IsTrue() {
+			return x.finish(st, fr, c, VScalar{b.Nil})
+		}
+		st.assume(Implies(And(a.Nil, Not(b.Nil)), Not(r)))
+		if a.Id.S != "" && b.Id.S != "" {
+			st.assume(Implies(And(Not(a.Nil), Not(b.Nil), Eq(a.Id, b.Id)), r))
+		}
+		return x.finish(st, fr, c, VScalar{r})
+	})
+	reg("errors.As", "errors.As(err, target): false for a nil err; otherwise unknown, the target then holds an arbitrary value", func(x *Exec, st *State, fr *Frame, c *callCtx) bool {
+		a, _ := x.force(st, c.args[0]).(VIface)
+		r := x.sym.Fresh("errors.as", SBool)
+		st.assume(Implies(a.Nil, Not(r)))
+		// the target (a pointer inside an interface) receives an unknown value
+		if tv, ok := x.force(st, c.args[1]).(VIface); ok && tv.Dyn != nil {
+			if p, ok := x.force(st, tv.Val).(VPtr); ok && p.Loc != nil {
+				if pt, ok := tv.Dyn.Underlying().(*types.Pointer); ok {
+					x.callCounter++
+					x.store(st, p.Loc, x.symbolic(st, pt.Elem(), fmt.Sprintf("errors.as!%d", x.callCounter)))
+				}
+			}
+		}
+		return x.finish(st, fr, c, VScalar{r})
+	})
+	reg("errors.Unwrap", "arbitrary error", noop)
+	reg("errors.Join", "arbitrary error", noop)
+	reg("time.Sleep", "no effect on verified state", noop)
+	reg("os.Stat", "arbitrary", noop)
+	reg("os.Remove", "removes the file (ghost: records the removal)", func(x *Exec, st *State, fr *Frame, c *callCtx) bool {
+		if st.ghost != nil && st.ghost.db != nil {
+			st.ghost.db.txLog = append(append([]string(nil), st.ghost.db.txLog...), "os.Remove")
+		}
+		return x.finish(st, fr, c, x.symbolicResult(st, c))
+	})
+}
